@@ -48,6 +48,8 @@ type (
 		blocked            int32
 		unblockPending     int32
 		unblockCh          chan unblockReason
+		aboutToBlock       int32                         // 1: a blocking command is under way but has not captured the client yet
+		earlyUnblock       atomic.Pointer[unblockReason] // the unblock request that arrived in that window, for the capture to find
 		respVersion        int
 		noEvict            bool
 		multiInProgress    bool
@@ -150,6 +152,23 @@ func (cs *clientState) capture() chan unblockReason {
 	return cs.unblockCh
 }
 
+// Brackets a command that may block: an unblock request that finds the client between
+// the start of such a command and its capture is kept for the capture instead of being lost.
+func (cs *clientState) beginBlockingCommand() {
+	cs.earlyUnblock.Store(nil)
+	atomic.StoreInt32(&cs.aboutToBlock, 1)
+}
+
+func (cs *clientState) endBlockingCommand() {
+	atomic.StoreInt32(&cs.aboutToBlock, 0)
+	cs.earlyUnblock.Store(nil)
+}
+
+// The unblock request, if any, that arrived before the capture (consumed).
+func (cs *clientState) takeEarlyUnblock() *unblockReason {
+	return cs.earlyUnblock.Swap(nil)
+}
+
 // Releases the client state capture after successful receipt of the unblock
 // signal. After releasing the capture, the non-blocking command processing
 // continues until the command completes.
@@ -206,6 +225,10 @@ func (cs *clientState) unblock(reason string, isError bool) {
 				// getting stuck here
 				cs.unblockCh <- unblockReason{reason: reason, isError: isError}
 			}
+		} else if locked == CS_UNCAPTURED && atomic.LoadInt32(&cs.aboutToBlock) == 1 {
+			// the command has not captured yet: leave the request where its capture looks
+			// (stored before the state is put back, so the capture cannot slip in between)
+			cs.earlyUnblock.CompareAndSwap(nil, &unblockReason{reason: reason, isError: isError})
 		}
 		if locked != CS_CHECKING {
 			// the goroutine that displaced the state puts it back; putting back the
